@@ -24,6 +24,8 @@ fn family_u() -> Vec<(Kind, usize)> {
         (Kind::FuCap(1), 0),
         (Kind::FuCap(2), 0),
         (Kind::FuIter(2), 2),
+        (Kind::FubZ(2), 0),
+        (Kind::FuZ(1), 0),
     ]
 }
 fn family_o() -> Vec<(Kind, usize)> {
@@ -55,7 +57,7 @@ fn family_uo_small() -> Vec<(Kind, usize)> {
 }
 
 fn merge_scripts() -> Vec<ChildSpec> {
-    vec![s("I"), s("P"), s(""), s("IP"), s("PI"), s("II"), s("w")]
+    vec![s("I"), s("P"), s(""), s("IP"), s("PI"), s("II"), s("w"), s("I!")]
 }
 
 /// family M: (kind, prefilled source scripts)
@@ -66,6 +68,8 @@ fn family_m() -> Vec<(Kind, Vec<ChildSpec>)> {
         (Kind::Mb(2), vec![s("I"), s("PI")]),
         (Kind::Mb(2), vec![s("P"), s("II")]),
         (Kind::Mb(3), vec![s("IPI"), s(""), s("P")]),
+        (Kind::Mb(2), vec![s("I!"), s("P!")]),
+        (Kind::Mu(2), vec![s("!"), s("PI!")]),
         (Kind::Mu(0), vec![]),
         (Kind::Mu(2), vec![s("IP"), s("PI")]),
         (Kind::MuIter(0), vec![]),
@@ -110,7 +114,8 @@ fn adapter_cfg(prop: &'static str, k: Kind, up_len: usize, hint: HintShape, dept
     c.name = format!("{:?} upstream_len={} hint={:?}", k, up_len, hint);
     c.up_len = up_len;
     c.hint = hint;
-    c.ops = ops::POLL | ops::COMPLETE | ops::FEED_UP;
+    c.ops = ops::POLL | ops::POLL_NEW | ops::COMPLETE | ops::FEED_UP;
+    c.costly = ops::POLL_NEW;
     c.depth = depth;
     c.delta = delta;
     c.epilogue = Epilogue::Drain;
@@ -702,7 +707,7 @@ pub fn scenarios(prop: &str, tier: &str) -> Vec<Cfg> {
                     let mut c = adapter_cfg(p, k, len, hint, if p == "C16" && thorough { 13 } else { d }, delta);
                     if p == "C16" {
                         // completing futures is the interesting dimension here
-                        c.costly = ops::FEED_UP;
+                        c.costly = ops::FEED_UP | ops::POLL_NEW;
                     }
                     v.push(c);
                 }
